@@ -52,6 +52,9 @@ def _fn_tokens(prog, key, depth, seen):
             t = body.term(b)
             if t["k"] == "switch":
                 exprs.append(body.expr_of_operand(t["op"]))
+            if t["k"] == "call" and not t["dest"]["p"] and t["dest"]["l"] == 0 and not is_noise(t):
+                # `f(..)` as the tail expression: the returned value is the callee's (the same as `let r = f(..); r`)
+                exprs.append(("call", callee_path(t), [body.expr_of_operand(a) for a in t["args"]], b))
             for st in body.blocks[b]["stmts"]:
                 if st["k"] == "=" and st["lhs"]["l"] == 0:
                     exprs.append(body.expr_of_rvalue(st["rv"]))
@@ -77,7 +80,7 @@ def _tokens(prog, fn_key, e, depth=0, seen=frozenset()):
         if x[0] == "discr" and strip(x[1])[0] == "phi":
             opt_flags.add(strip(x[1])[1])
     for x in subexprs(e):
-        if x[0] == "phi" and depth < 2 and fn_key in prog.fns and \
+        if x[0] == "phi" and depth < 2 and fn_key in prog.fns and x[1] < len(prog.fns[fn_key].body.locals) and \
                 (prog.fns[fn_key].body.locals[x[1]]["ty"] == "bool" or x[1] in opt_flags):
             # a flag assembled on several paths (`let found = match it.find(..) { Some(..) => true, None => false }`): what its
             # definitions were computed from, and the branches that chose between them
@@ -99,6 +102,23 @@ def _tokens(prog, fn_key, e, depth=0, seen=frozenset()):
             out |= _fn_tokens(prog, x[1], depth, seen)
         elif x[0] == "discr" and x[2] and _known_adt(prog, x[2]):
             out.add("discr:" + x[2])
+        if x[0] == "call" and (x[1].endswith("PartialEq::eq") or x[1].endswith("PartialEq::ne")) and not x[1].startswith("<"):
+            vt_ = variant_test(x)
+            if vt_ is not None:
+                for a_ in x[2]:
+                    c_ = strip(a_)
+                    ty_ = None
+                    if c_[0] == "agg" and isinstance(c_[1], str):
+                        ty_ = c_[1]
+                    elif c_[0] == "const" and c_[1].get("variant"):
+                        ty_ = str(c_[1]["variant"]).rsplit("::", 1)[0]
+                    if ty_ in prog.adts and prog.adts[ty_].get("kind") == "enum" and _known_adt(prog, ty_):
+                        out.add("discr:" + ty_)
+        if x[0] == "call" and x[1].startswith("<") and (x[1].endswith(" as std::cmp::PartialEq>::eq") or x[1].endswith(" as std::cmp::PartialEq>::ne")):
+            # `x == Variant` through the derived PartialEq of a loom enum is the discriminant test `matches!(x, Variant)`
+            ty_ = x[1][1:x[1].index(" as std::cmp::PartialEq>")]
+            if ty_ in prog.adts and prog.adts[ty_].get("kind") == "enum" and _known_adt(prog, ty_):
+                out.add("discr:" + ty_)
         if x[0] == "call" and depth < 3:
             # a predicate handed to an iterator adaptor (`.any(|k| ..)`, `.find(..)`): what the closure reads decides the guard
             for a in x[2]:
